@@ -1172,11 +1172,66 @@ def m_map_new(kind):
     return f
 
 
+def key_sig(I, k):
+    """hashable signature of a fully concrete key, else None"""
+    k = I.deref(k) if isinstance(k, Ref) else k
+    if isinstance(k, IntV):
+        return k.v if k.conc() else None
+    if isinstance(k, SliceRef):
+        return conc_bytes(I, k)
+    if isinstance(k, Agg):
+        if k.kind == 'String':
+            return conc_bytes(I, str_of_string(k))
+        parts = []
+        for f in k.fields:
+            sg = key_sig(I, f)
+            if sg is None:
+                return None
+            parts.append(sg)
+        return (k.kind, k.variant, tuple(parts))
+    return None
+
+
+def map_index(I, hm):
+    """dict signature -> entry index, valid while every key is concrete (kept in hm.meta)"""
+    m = hm.meta
+    if m is None or m.get('n') != len(hm.fields) or m.get('ver') is not hm.fields:
+        idx = {}
+        okk = True
+        for i, ent in enumerate(hm.fields):
+            key = ent.fields[0] if hm.kind != 'HashSet' else ent
+            sg = key_sig(I, key)
+            if sg is None:
+                okk = False
+                break
+            idx[sg] = i
+        m = {'n': len(hm.fields), 'ver': hm.fields, 'idx': idx if okk else None}
+        hm.meta = m
+    return m['idx']
+
+
 def map_find(I, hm, k):
+    sg = key_sig(I, k)
+    if sg is not None:
+        idx = map_index(I, hm)
+        if idx is not None:
+            return idx.get(sg)
     for i, ent in enumerate(hm.fields):
         if truthy(I, key_eq(I, ent.fields[0], k)):
             return i
     return None
+
+
+def map_added(I, hm, k):
+    """keep the index current after an append"""
+    m = hm.meta
+    if m is not None and m.get('idx') is not None and m.get('n') == len(hm.fields) - 1:
+        sg = key_sig(I, k)
+        if sg is not None:
+            m['idx'][sg] = len(hm.fields) - 1
+            m['n'] = len(hm.fields)
+            return
+    hm.meta = None
 
 
 def m_hm_get(I, args, callee):
@@ -1202,6 +1257,7 @@ def m_hm_insert(I, args, callee):
         hm.fields[i].fields[1] = v
         return some(old)
     hm.fields.append(Agg('tuple', [k, v]))
+    map_added(I, hm, k)
     return none()
 
 
@@ -1230,6 +1286,7 @@ def m_vacant_insert(I, args, callee):
     hm = I.deref(e.fields[0])
     ent = Agg('tuple', [e.fields[1], v])
     hm.fields.append(ent)
+    map_added(I, hm, e.fields[1])
     return Ref(Cell(ent), (('f', 1),))
 
 
